@@ -9,6 +9,11 @@
                         dead_timeout window (Proofs/C13Windows.v: an invariant coupling the failure record and the
                         eviction record of a server with the tail of its contact log; Proofs/C13Oracle.v: the link
                         to the executable oracle)
+     c13_evictions      for every such history, every eviction of a server (retries configured) was preceded by at
+                        least two failing contacts of it in a row: one failure never takes a server out
+     c13_never_failed   for every such history, a server that has had no failing contact has no failure record, is
+                        not evicted and is still in rotation: with c13_no_bypass, it is contacted by every call
+                        placed on it
      the others         the per-call decision rules and bookkeeping facts
    PARTIAL: recovery of the original
    placement and "only the failing server's own error escapes" are per-call theorems (c13_eviction_clean) plus
@@ -74,7 +79,10 @@ Example c13_oracle_ex : windows_ok 2 5 60 [(0, false); (1, false); (7, false)] =
                      /\ windows_ok 2 5 60 [(0, false); (1, true); (2, false); (4, false)] = true.
 Proof. repeat split; reflexivity. Qed.
 
-(* ---- the bounds over whole histories ---- *)
+(* ---- whole histories ---- *)
+Definition in_rotation_at_start (sv : server) (servers : list server) (t0 : Z) times outs : bool :=
+  sv_mem (h_nodes (init_hstate servers t0 times outs)) sv.
+
 Theorem c13_windows : forall (route : list server -> dyn -> exc (option server)) (c : hcfg),
   (forall nodes k sv, route nodes k = Ok (Some sv) -> sv_mem nodes sv = true) ->
   0 <= hc_retry_attempts c -> hc_retry_timeout c < hc_dead_timeout c ->
@@ -83,9 +91,39 @@ Theorem c13_windows : forall (route : list server -> dyn -> exc (option server))
              (contacts_chrono sv (h_log (snd (run_hops route c ops (init_hstate servers t0 times outs))))) = true.
 Proof.
   intros route c Hr Ha Ht sv servers t0 times outs ops Hm Ho. apply log_ok_windows.
-  apply (windows_hold route c Hr Ha Ht sv servers t0 times outs ops Hm Ho).
+  apply (windows_hold route c Hr Ha Ht sv (in_rotation_at_start sv servers t0 times outs) servers t0 times outs ops Hm Ho). intros X. exact X.
 Qed.
 Print Assumptions c13_windows.
+
+(* "not taken out of rotation by a single failure when retries are configured", for every history: each eviction of sv
+   was preceded by at least two failing contacts of sv in a row *)
+Theorem c13_evictions : forall (route : list server -> dyn -> exc (option server)) (c : hcfg),
+  (forall nodes k sv, route nodes k = Ok (Some sv) -> sv_mem nodes sv = true) ->
+  0 <= hc_retry_attempts c -> hc_retry_timeout c < hc_dead_timeout c ->
+  forall sv servers t0 times outs ops, mono t0 times -> Forall okout outs ->
+  evictions_ok c sv (h_log (snd (run_hops route c ops (init_hstate servers t0 times outs)))).
+Proof.
+  intros route c Hr Ha Ht sv servers t0 times outs ops Hm Ho. apply log_ok_evictions.
+  apply (windows_hold route c Hr Ha Ht sv (in_rotation_at_start sv servers t0 times outs) servers t0 times outs ops Hm Ho). intros X. exact X.
+Qed.
+Print Assumptions c13_evictions.
+
+(* "no server that did not fail is ever bypassed", for every history: as long as sv has had no failing contact it has no
+   failure record, is not evicted and is still in rotation - so (c13_no_bypass) every call placed on it contacts it *)
+Theorem c13_never_failed : forall (route : list server -> dyn -> exc (option server)) (c : hcfg),
+  (forall nodes k sv, route nodes k = Ok (Some sv) -> sv_mem nodes sv = true) ->
+  0 <= hc_retry_attempts c -> hc_retry_timeout c < hc_dead_timeout c ->
+  forall sv servers t0 times outs ops, mono t0 times -> Forall okout outs ->
+  let s := snd (run_hops route c ops (init_hstate servers t0 times outs)) in
+  clean sv (h_log s) ->
+  sv_get (h_failed s) sv = None /\ sv_get (h_dead s) sv = None /\
+  (in_rotation_at_start sv servers t0 times outs = true -> sv_mem (h_nodes s) sv = true).
+Proof.
+  intros route c Hr Ha Ht sv servers t0 times outs ops Hm Ho. cbn zeta.
+  destruct (history_inv route c Hr Ha Ht sv (in_rotation_at_start sv servers t0 times outs) servers t0 times outs ops Hm Ho (fun X => X)) as (_ & _ & _ & Cs).
+  exact Cs.
+Qed.
+Print Assumptions c13_never_failed.
 
 (* non-vacuity: a history that drives one server through failure, a retry inside the window (no contact), retries after
    it, eviction with the last contact, revival and a further failure meets the premises; its contact log is the one shown *)
